@@ -330,9 +330,8 @@ def f4(tier, rnd) -> List[Desc]:
     d = [M.packet('P', [M.scalar('a', 8), M.payload()]),
          M.packet('S1', [M.scalar('x', 8)], 'P', [('a', 1)]),
          M.packet('S2', [M.scalar('y', 16)], 'P', [('a', 1)]),
-         M.packet('S3', [M.scalar('z', 8)], 'P', [('a', 2)]),
-         M.packet('Ext', [M.scalar('h', 8), M.payload()], 'P', [('a', 3)])]
-    out.extend(both(Desc('f4_cons_size', _le(d), 'F4', python=False, core=True)))
+         M.packet('Ext', [M.scalar('h', 8), M.payload()], 'P', [('a', 2)])]
+    out.extend(both(Desc('f4_cons_size', _le(d), 'F4', python=False)))
     # constraint values above 2^32
     d = [M.packet('Frame', [M.scalar('tag', 40), M.payload()]),
          M.packet('Ack', [M.scalar('x', 8)], 'Frame', [('tag', 7)]),
@@ -484,7 +483,6 @@ CORE_KINDS = {
                       'OptChild': ['c02'], 'Opt56t': ['c04']},
     'f4_tlv_field': {'Child': ['c02', 'c03']},
     'f3_empty': {'Empty': ['c18d', 'c01'], 'Blob': ['c18d', 'c04'], 'SBlob': ['c18d']},
-    'f4_cons_size': {'P': ['c06s'], 'Ext': ['c06v']},
     'f4_wide_constraint': {'Frame': ['c06s', 'c06t'], 'Ping': ['c06v', 'c03']},
     'f7_forward': {'Nest': ['c03']},
     'f7_custom16': {'C': ['c01'], 'C2': ['c03']},
